@@ -454,6 +454,10 @@ func (f *FSM) witnessSnapshot(metadata *raft.SnapshotMeta) error {
 	f.latestTerm.Store(metadata.Term)
 	f.latestConfig.Store(raftConfigurationToProtoConfiguration(metadata.ConfigurationIndex, metadata.Configuration))
 
+	// The index may have advanced without the individual writes having been
+	// seen by the fast transaction tracker.
+	f.fastTxnTracker.resetCoverage()
+
 	return nil
 }
 
@@ -1085,6 +1089,10 @@ func (f *FSM) Restore(r io.ReadCloser) error {
 		f.logger.Error("failed to open new database file", "error", err)
 		retErr = multierror.Append(retErr, fmt.Errorf("failed to open new bolt file: %w", err))
 	}
+
+	// Storage was replaced wholesale; the fast transaction tracker did not
+	// see these writes.
+	f.fastTxnTracker.resetCoverage()
 
 	// Handle local node config restore. lnConfig should not be nil here, but
 	// adding the nil check anyways for safety.
